@@ -354,6 +354,10 @@ var smProp = ev.Register(&ev.Prop[SMCase]{
 type StreamCase struct {
 	SM   *SMCase `json:"sm,omitempty"`
 	Reqs []HReq  `json:"reqs,omitempty"`
+	// Pinned: the application called SetWriterStream(n) on the association earlier (it steers the
+	// raw Write adaptor); answers written with WriteTo name their stream explicitly and must still
+	// go to the stream of their request.
+	Pinned *uint16 `json:"pinned,omitempty"`
 }
 
 // HReq is one request for the plain handler.
@@ -443,7 +447,7 @@ func runStream(c StreamCase) *ev.Failure {
 				return
 			}
 			a := m.Answer(refcodec.Get32(p[4:]))
-			if p[0] == 1 {
+			if p[0] == 1 && c.Pinned == nil {
 				var b []byte
 				if b, err = a.Serialize(); err == nil {
 					_, err = conn.Write(b)
@@ -468,7 +472,11 @@ func runStream(c StreamCase) *ev.Failure {
 	}
 	defer d.end()
 	be.FeedEOF()
-	if _, err := diam.NewConn(diam.NewVerifSCTPConn(be), "", handler, dict.Default); err != nil {
+	sc := diam.NewVerifSCTPConn(be)
+	if c.Pinned != nil {
+		sc.SetWriterStream(uint(*c.Pinned))
+	}
+	if _, err := diam.NewConn(sc, "", handler, dict.Default); err != nil {
 		be.Close()
 		return ev.Failf("harness-conn", "NewConn: %v", err)
 	}
@@ -507,6 +515,15 @@ func runStream(c StreamCase) *ev.Failure {
 }
 
 func genStream(t *rapid.T) StreamCase {
+	c := genStreamBase(t)
+	if rapid.IntRange(0, 3).Draw(t, "pinned-writer-stream") == 0 {
+		p := uint16(rapid.IntRange(0, 20).Draw(t, "pinned"))
+		c.Pinned = &p
+	}
+	return c
+}
+
+func genStreamBase(t *rapid.T) StreamCase {
 	stream := func(r *Req, label string) {
 		r.Stream = drawStream(t, label+"-stream")
 		if rapid.IntRange(0, 3).Draw(t, label+"-split") == 0 {
